@@ -772,6 +772,9 @@ func (e *evalCtx) callExpr(x *sx) sval {
 		v := e.eval(args[0])
 		if v.typ == nil {
 			v.typ = types.Typ[types.Int]
+			if v.sort == "Bool" {
+				v.typ = types.Typ[types.Bool]
+			}
 		}
 		return sval{term: t.mkIface(v.typ, v.term), sort: "Iface"}
 	case "ite":
@@ -810,6 +813,16 @@ func (e *evalCtx) callExpr(x *sx) sval {
 			return e.mk(t.ifacePayload(T, v.term), T)
 		}
 		return e.mk(v.term, T)
+	case "sel":
+		// sel("select#2"): the case index chosen by that select statement
+		if args[0].op != "str" {
+			e.fail("sel(\"select#n\")")
+		}
+		idx, ok := t.selIdx[args[0].val]
+		if !ok {
+			e.fail("unknown select %q", args[0].val)
+		}
+		return intv(idx)
 	case "now":
 		// now(x): x with element reads taken from the evaluation state (drops a snapshot pin)
 		v := e.eval(args[0])
